@@ -234,6 +234,13 @@ func c08Bounds(p *ana.Prog, r *ana.Result, ts *ana.TaintState, pset *ana.ProverS
 		}
 		r.Violate("C08.bounds", fname, key, posOf(p, o.in), fmt.Sprintf("no guard establishes %s >= 0 for this operation on data whose length/index the peer chooses (the compiler keeps a run-time check): a short or oversized field panics with index/slice out of range%s", failed.String(), extra))
 	}
+	if d := os.Getenv("C08_SUMMARY"); d != "" {
+		for _, f := range p.AllFuncs {
+			if strings.Contains(ana.FuncName(f), d) {
+				fmt.Fprintf(os.Stderr, "SUMMARY %s: %s\n", ana.FuncName(f), pset.DumpSummary(f))
+			}
+		}
+	}
 	r.Table("bounds", map[string]int{"obligations": nObl, "compiler_proved": nCompiler, "prover_proved": nProver, "lifted_to_callers": nLifted, "compiler_residual_positions": len(residual)})
 	r.Floor("C08.bounds.obligations", nObl, 40)
 }
@@ -332,6 +339,10 @@ func pathGate(p *ana.Prog, pr *ana.Prover, goal ana.ILin, at ssa.Instruction) bo
 			}
 		}
 	}
+	dbg := os.Getenv("C08_DEBUG") != ""
+	if dbg {
+		fmt.Fprintf(os.Stderr, "PATHGATE %s goal %s: %d accept edges\n", ana.FuncName(fn), goal.String(), len(g.Accept))
+	}
 	if len(g.Accept) == 0 {
 		return false
 	}
@@ -351,7 +362,10 @@ func pathGate(p *ana.Prog, pr *ana.Prover, goal ana.ILin, at ssa.Instruction) bo
 	}
 	target := func(in ssa.Instruction) bool { return in == at }
 	stop := func(in ssa.Instruction) bool { return false }
-	ok, _ := ana.MustPass(fn, start, g, target, stop, nil)
+	ok, w := ana.MustPass(fn, start, g, target, stop, nil)
+	if dbg && !ok {
+		fmt.Fprintf(os.Stderr, "  start=%v witness=%v\n", start, w)
+	}
 	return ok
 }
 
